@@ -110,7 +110,7 @@ def net_valved():
 def net_branched_relabel():
     """the branched net; its structural edit gives the second sink another index label (7 instead of 1)"""
     net, knobs = net_branched()
-    return net, dict(knobs, struct=("sink", "__index__", [1], 7))
+    return net, dict(knobs, struct=("sink", "__index__", [1], 7), edit=("sink", "mdot_kg_per_s", [0], 2.1))   # the parameter edit addresses the other sink
 
 
 NETS = {"valved": net_valved, "branched_relabel": net_branched_relabel, "p_only": net_p_only, "deadend": net_deadend_source, "heating_loop": net_heating_loop, "branched": net_branched, "gas": net_gas, "versatility": net_versatility}
